@@ -140,6 +140,14 @@ impl ShortTermCredentialClient {
         self.prepare_request_or_indication(attributes);
     }
 
+    #[cfg(feature = "verif")]
+    pub(crate) fn verif_state(&self) -> (String, Vec<TransactionId>) {
+        (
+            format!("short-term integrity={:?}", self.integrity),
+            self.validator.verif_violated(),
+        )
+    }
+
     pub fn signal_protection_violated_on_timeout(
         &mut self,
         transaction_id: &TransactionId,
